@@ -99,7 +99,7 @@ pub(crate) fn show_v(v: &V) -> String {
 }
 
 /// request text (communities without the bookkeeping fields)
-fn req_v(v: &V) -> String {
+pub(crate) fn req_v(v: &V) -> String {
     match v { V::Communities(l) => format!("communities:{}", nats(l)), _ => show_v(v) }
 }
 
@@ -111,7 +111,7 @@ fn p_recs(k: usize, s: &str) -> Option<Vec<Vec<u8>>> {
     s.split('.').map(|h| if h == "-" { None } else { unhex(h).filter(|b| b.len() == k) }).collect()
 }
 
-fn parse_req(s: &str) -> Option<V> {
+pub(crate) fn parse_req(s: &str) -> Option<V> {
     let (kind, rest) = match s.split_once(':') { Some((k, r)) => (k, Some(r)), None => (s, None) };
     let two = |r: &str| -> Option<(u32, u32)> { let (a, b) = r.split_once(':')?; Some((p_u32(a)?, p_u32(b)?)) };
     Some(match (kind, rest) {
@@ -297,7 +297,7 @@ pub(crate) fn ref_decode(code: u8, four: bool, v: &[u8]) -> Option<String> {
         9 => show_v(&V::Originator(be32(v))),
         10 => show_v(&V::ClusterList(v.chunks(4).map(be32).collect())),
         16 => show_v(&V::ExtComm(chunks(8))),
-        17 => format!("as4path:{}", ref_path_text(v, four)?),
+        17 => format!("as4path:{}", ref_path_text(v, true)?), // RFC 6793: always four octets wide
         18 => show_v(&V::As4Aggregator(be32(v), be32(&v[4..]))),
         20 => show_v(&V::Connector(be32(v))),
         21 => show_v(&V::AsPathLimit(v[0], be32(&v[1..]))),
@@ -620,7 +620,6 @@ impl Prop for C04 {
                     return if got == want { Ok(()) } else {
                         Err(format!("value of {} bytes violates the length rule of type {} but was surfaced as `{}`", v.len(), tc, got.chars().take(60).collect::<String>())) };
                 }
-                if !four && tc == 17 { return if got.starts_with("typed:as4path:") || got == "owned-err" { Ok(()) } else { Err("AS4_PATH in a two-octet session".into()) }; }
                 let want = format!("typed:{}", ref_decode(tc, four, v).ok_or("ref")?);
                 if got != want { return Err(format!("well-formed value of type {} decoded as `{}`", tc, got.chars().take(80).collect::<String>())); }
                 // the decoded value re-encodes canonically
